@@ -94,6 +94,9 @@ var c03Positions int64
 
 func c03Once(c c03Case, pos int) (ret c03Outcome) {
 	res := inBubble(theT, func() { ret = c03InBubble(c, pos) })
+	if o, stuck := stuckVerdict(res); stuck {
+		return c03Outcome{sig: o.Sig, msg: o.Msg}
+	}
 	if res.Panic != "" {
 		return c03Outcome{sig: "panic@" + topFrame(res.Stack), msg: res.Panic + "\n" + res.Stack}
 	}
